@@ -51,12 +51,19 @@ FAMILIES = {
     "star1": [("star", "star", 4)],
     "c2chord1": [("2-clique", "clique", 2), ("chord", "chord", 4)],
     "path4": [("path4", "path", 4)],
+    # a path on four vertices whose end edges share a name and whose middle edge has another: the far end is two steps of ANOTHER name away
+    "path4-bcb": [(["p-b", "p-c", "p-b"], "path", 4)],
+    "c2path4-bcb": [("2-clique", "clique", 2), (["p-b", "p-c", "p-b"], "path", 4)],
 }
 
 
 def gen_cases(tier, seed):
     n = 120 if tier == "quick" else 1200
-    return [{"seed": seed * 100333 + i, "nmax": 80 if tier == "quick" or i % 6 else 400, "big": tier == "thorough" and i % 6 == 0, "thorough": tier == "thorough",
+    # small networks of paths, stars and 6-cycles in which every vertex lies in several motifs: two motifs then often share a vertex that
+    # is adjacent to neither focal vertex - the situation in which a swap would put a vertex into a motif twice
+    dense = [{"seed": seed * 100333 + 5000 + i, "nmin": 10, "nmax": 20, "fam": f, "thorough": tier == "thorough", "_cost": 0.3}
+             for i, f in enumerate(["path4", "path4-bcb", "c2path4-bcb", "path4-bcb", "c2cyc6", "star1", "path4", "path4-bcb"] * (12 if tier == "quick" else 60))]
+    return dense + [{"seed": seed * 100333 + i, "nmax": 80 if tier == "quick" or i % 6 else 400, "big": tier == "thorough" and i % 6 == 0, "thorough": tier == "thorough",
              "_cost": 1 if tier == "quick" or i % 6 else 6} for i in range(n)]
 
 
@@ -230,6 +237,27 @@ def run_rewire(res, G, names, T, params_extra, seed, budget_scale=1.0, ctx=None,
     mon.coin.seed(seed)
     H = None
     returned = False
+    import logging as _logging
+    quiet_logging = seed % 4 == 3
+    if quiet_logging:
+        # the caller has silenced logging for the whole process before building the rewiring object (logging.disable, the standard
+        # way to quieten a chatty library); restored after the run
+        _prev_disable = _logging.root.manager.disable
+        _logging.disable(_logging.CRITICAL)
+        res.count("runs_with_logging_disabled_process_wide")
+    try:
+        return _run_rewire_body(res, G, mon, tap, im_args=(reuse, retarget, params, T, order, tm, net, limit, params_extra))
+    finally:
+        if quiet_logging:
+            _logging.disable(_prev_disable)
+
+
+def _run_rewire_body(res, G, mon, tap, im_args):
+    import gcmpy
+    from gcmpy import ToolsNames as TN
+    reuse, retarget, params, T, order, tm, net, limit, params_extra = im_args
+    H = None
+    returned = False
     with installed_monitor(mon) as im, installed(tap, "mcmc", "drawset"):
         res.count("hooks_installed", im.hooks)
         if reuse is None:
@@ -308,9 +336,12 @@ def run_case(case):
     res = Result()
     rng = random.Random(case["seed"])
     fam = rng.choice(list(FAMILIES))
+    if case.get("fam"):
+        fam = case["fam"]
+        res.count("runs_on_small_dense_path_and_cycle_networks(vertices_shared_by_many_motifs)")
     default_limits = rng.random() < 0.25
     # the documented default is 10 x |E| accepted swaps: keep those runs on small networks
-    N = rng.randint(20, 30) if default_limits and not case.get("big") else rng.randint(20, case.get("nmax", 80))
+    N = rng.randint(20, 30) if default_limits and not case.get("big") else rng.randint(case.get("nmin", 20), case.get("nmax", 80))
     G, info, classes = make_network(rng, fam, N, ids=rng.choice(["shuffled", "shuffled", "sorted"]), assort=rng.choice([0.0, 0.0, 0.5]))
     names = info["names"]
     why = check_clean(G)
@@ -338,7 +369,7 @@ def run_case(case):
         extra[TN.CONVERGENCE_LIMIT] = rng.choice([0, 1, 5, 50, 50, 500, 500, 5000 if case.get("big") else 200])
         if rng.random() < 0.6:
             extra[TN.SEARCH_LIMIT] = rng.choice([1, 5, 25])
-    if fam in ("two-name", "wedge", "c2wedge"):
+    if fam in ("two-name", "wedge", "c2wedge", "path4-bcb", "c2path4-bcb"):
         res.count("two_name_runs")
     if fam in ("wedge1", "c2wedge1", "star1", "c2chord1", "path4"):
         res.count("runs_on_single_name_motifs_with_corners_of_different_sizes")
@@ -355,8 +386,16 @@ def run_case(case):
     base = {"family": fam, "N": N, "classes": classes, "target": kind, "motifs": info["motifs"], "edges": G.number_of_edges(),
             "params": {str(k.value): v for k, v in extra.items()}, "seed": case["seed"]}
     quick = not case.get("thorough")
-    mon = run_rewire(res, G, names, T, extra, seed=case["seed"], ctx=base, cap=60000 if quick else None, stall=15000 if quick else 100000)
+    dense = bool(case.get("fam"))
+    mon = run_rewire(res, G, names, T, extra, seed=case["seed"], ctx=base, cap=(3000 if dense else 60000) if quick or dense else None,
+                     stall=(1500 if dense else 15000) if quick or dense else 100000)
     fold_monitor(res, mon, base)
+    if dense:
+        # only the swaps between motifs that are still as given matter here: a short chain, no follow-up histories
+        res.nontrivial = mon.accepted >= 1
+        res.sample = dict(base, accepted=mon.accepted, proposals=mon.props, signatures=dict(mon.sig), stopped=mon.stopped)
+        res.digest = digest([base, sorted(map(sorted, G.edges()))[:50]])
+        return res
     if res.verdict == "held" and mon.returned and not nx.is_frozen(G) and rng.random() < 0.3:
         # history: the owner edits the network's graph IN PLACE (degree-preserving swaps between two 2-clique motifs: same graph
         # object, same number of edges, still a clean motif network) and calls rewire() again on the same rewiring object
